@@ -1,7 +1,9 @@
 (* C09 — INCLUDE is transparent.  Statements only; proofs in Proofs/C09Proofs.v.
    PARTIAL: split = unsplit is not a theorem; it is checked metamorphically (catalog JSON of
-   the project vs its textual inlining) and on the directive forests (implementation vs model). *)
-From JS Require Import Base Bytes Scanner Directive Core Entry C09Proofs.
+   the project vs its textual inlining) and on the directive forests (implementation vs model).
+   Proved (Proofs/IncludeRoundTrip.v), for include trees of any depth and every scanner program,
+   file system and oracle: what survives the switch into an included file and back. *)
+From JS Require Import Base Bytes Scanner Directive Core Entry C09Proofs IncludeRoundTrip.
 From JS Require ScannerProg.
 Open Scope Z_scope.
 
@@ -20,6 +22,54 @@ Theorem C09_include_preserves_core_state :
       c_step (cs_conf st1) = ScannerProg.initial_state /\ c_cur (cs_conf st1) = 0.
 Proof. exact include_preserves_core_state. Qed.
 
+(* a run of the directive layer that leaves every file it enters (lexemes through JApiCore.next,
+   INCLUDEs entered by processInclude and left at the end of the included file, nested to any
+   depth) ends in the file it started in, on the same stack of suspended scanners; the files
+   opened so far have only grown *)
+Theorem C09_balanced_runs_keep_file_and_scanner_stack :
+  forall prog nl ws fs olen init_st st st',
+    balanced prog nl ws fs olen init_st st st' ->
+    cs_file st' = cs_file st /\ cs_stack st' = cs_stack st /\ exists more, cs_files st' = cs_files st ++ more.
+Proof. exact balanced_run_keeps_the_switch_state. Qed.
+
+(* INCLUDE, the whole included file with whatever it includes itself, its end: the includer
+   resumes in its own file with exactly the scanner configuration it had right after the INCLUDE
+   parameter, on the same stack; the end of the included file finalised the pending directive and
+   did nothing else to the directive layer *)
+Theorem C09_include_round_trip :
+  forall prog nl ws fs olen init_st st kw stI x stK cfK stE,
+    process_include prog nl ws fs olen init_st st kw = (COk stI, x) ->
+    balanced prog nl ws fs olen init_st stI stK ->
+    process_eof (set_conf stK cfK) = COk stE ->
+    exists pl cf,
+      scan_next prog nl ws olen st = ROk (Some pl, cf) /\
+      cs_stack stE = mkSItem (cs_file st) cf (lb kw) :: cs_stack st /\
+      let r := resume stE (mkSItem (cs_file st) cf (lb kw)) (cs_stack st) in
+      cs_file r = cs_file st /\ cs_conf r = cf /\ cs_stack r = cs_stack st /\
+      (exists more, cs_files r = cs_files st ++ more) /\
+      process_current (set_conf stK cfK) = COk stE /\ cs_cur r = None /\
+      cs_forest r = cs_forest stE /\ cs_ctx r = cs_ctx stE.
+Proof. exact include_round_trip. Qed.
+
+(* ... and that finalisation is what the next keyword does first anyway *)
+Theorem C09_finalising_at_the_end_of_the_included_file_is_harmless :
+  forall st st1 l, process_current st = COk st1 -> process_keyword st1 l = process_keyword st l.
+Proof. exact finalising_early_is_harmless. Qed.
+
+(* the relation follows the loop of scanProject *)
+Theorem C09_scan_project_follows_balanced_runs :
+  forall prog nl ws fs olen init_st fuel st,
+    (forall l cf st1, scan_next prog nl ws olen st = ROk (Some l, cf) -> is_include (set_conf st cf) l = false ->
+       core_next (set_conf st cf) l = COk st1 ->
+       scan_project prog nl ws fs olen init_st (S fuel) st = scan_project prog nl ws fs olen init_st fuel st1) /\
+    (forall l cf stI x, scan_next prog nl ws olen st = ROk (Some l, cf) -> is_include (set_conf st cf) l = true ->
+       process_include prog nl ws fs olen init_st (set_conf st cf) l = (COk stI, x) ->
+       scan_project prog nl ws fs olen init_st (S fuel) st = scan_project prog nl ws fs olen init_st fuel stI) /\
+    (forall cf stE it rest, scan_next prog nl ws olen st = ROk (None, cf) -> process_eof (set_conf st cf) = COk stE ->
+       cs_stack stE = it :: rest ->
+       scan_project prog nl ws fs olen init_st (S fuel) st = scan_project prog nl ws fs olen init_st fuel (resume stE it rest)).
+Proof. exact scan_project_follows_balanced_runs. Qed.
+
 (* FULL STATEMENT refuted: finding F14 *)
 Theorem C09_refuted_include_inside_explicit_context :
   scan_ok (tree_case [(root_name, FFile unsplit_doc)] root_name [] [] 1000) = true /\
@@ -29,3 +79,7 @@ Proof. exact include_in_explicit_context_refuted. Qed.
 
 Print Assumptions C09_include_preserves_core_state.
 Print Assumptions C09_refuted_include_inside_explicit_context.
+Print Assumptions C09_balanced_runs_keep_file_and_scanner_stack.
+Print Assumptions C09_include_round_trip.
+Print Assumptions C09_finalising_at_the_end_of_the_included_file_is_harmless.
+Print Assumptions C09_scan_project_follows_balanced_runs.
